@@ -8,8 +8,15 @@
 (*   r.flags : sequence of [kind, of, modified, earlier_job]                                *)
 EXTENDS TraceBase
 
+(* kind "option_array_modified": a scalar option handed over as a 0-d array (probe "zerod") no      *)
+(* longer holds its value after the call - "every array passed to it is identical ..." (C13), and   *)
+(* the caller's next call with that object asks for something else than the caller set.             *)
 Judge(r) ==
-  <<Chk("EarlierResultsIntact", \A k \in 1..Len(r.flags) : r.flags[k].modified = 0, "ok"),
+  <<Chk("EarlierResultsIntact",
+        \A k \in 1..Len(r.flags) : r.flags[k].kind = "earlier_result_modified" => r.flags[k].modified = 0,
+    Chk("OptionArraysIntact",
+        \A k \in 1..Len(r.flags) : r.flags[k].kind = "option_array_modified" => r.flags[k].modified = 0,
+    "ok")),
     "na", "result_of_" \o (IF Len(r.flags) > 0 THEN r.flags[1].of ELSE "none")>>
 
 VARIABLES tid, verdict
